@@ -206,6 +206,18 @@ def gen_inputs(ctx):
         lines, ids = pdbgen.multichain(rnd, ter=ter, oxt_prob=rnd.choice([0, 0.5, 1]))
         if rnd.random() < 0.5:
             lines = twin_variants(rnd, lines)
+        if i % 8 == 0:
+            # a chain that ends with a terminal oxygen, followed (with or without TER) by a chain whose first residue carries the
+            # same number: only the chain identifier tells the two residues apart
+            l2, ids2 = pdbgen.multichain(rnd, nchains=2, ter=ter, oxt_prob=1.0, twins=0.0)
+            c1, c2 = ids2
+            n1 = [int(l[22:26]) for l in l2 if pdbgen.is_atom(l) and l[21] == c1]
+            n2 = [int(l[22:26]) for l in l2 if pdbgen.is_atom(l) and l[21] == c2]
+            if n1 and n2:
+                sh = n1[-1] - n2[0]
+                if -999 < min(n2) + sh and max(n2) + sh < 9999:
+                    lines = [pdbgen.setcols(l, 22, 26, "%4d" % (int(l[22:26]) + sh)) if pdbgen.is_atom(l) and l[21] == c2 else l for l in l2]
+                    ids = ids2
         if rnd.random() < 0.3:
             lines = pdbgen.insert_at_random(rnd, lines, pdbgen.JUNK, rnd.randint(1, 3))
         if rnd.random() < 0.25:     # HETATM before the first ATOM
